@@ -835,6 +835,8 @@ void OPNMIDIplay::realTime_BankChangeLSB(uint8_t channel, uint8_t lsb)
     if(static_cast<size_t>(channel) >= m_midiChannels.size())
         channel = channel % 16;
     m_midiChannels[channel].bank_lsb = lsb;
+    if((m_synthMode & Mode_GS) == 0)// Same as on CC32
+        m_midiChannels[channel].is_xg_percussion = isXgPercChannel(m_midiChannels[channel].bank_msb, m_midiChannels[channel].bank_lsb);
 }
 
 void OPNMIDIplay::realTime_BankChangeMSB(uint8_t channel, uint8_t msb)
@@ -842,6 +844,8 @@ void OPNMIDIplay::realTime_BankChangeMSB(uint8_t channel, uint8_t msb)
     if(static_cast<size_t>(channel) >= m_midiChannels.size())
         channel = channel % 16;
     m_midiChannels[channel].bank_msb = msb;
+    if((m_synthMode & Mode_GS) == 0)// Same as on CC0
+        m_midiChannels[channel].is_xg_percussion = isXgPercChannel(m_midiChannels[channel].bank_msb, m_midiChannels[channel].bank_lsb);
 }
 
 void OPNMIDIplay::realTime_BankChange(uint8_t channel, uint16_t bank)
@@ -850,6 +854,8 @@ void OPNMIDIplay::realTime_BankChange(uint8_t channel, uint16_t bank)
         channel = channel % 16;
     m_midiChannels[channel].bank_lsb = uint8_t(bank & 0xFF);
     m_midiChannels[channel].bank_msb = uint8_t((bank >> 8) & 0xFF);
+    if((m_synthMode & Mode_GS) == 0)// Same as on CC0/CC32
+        m_midiChannels[channel].is_xg_percussion = isXgPercChannel(m_midiChannels[channel].bank_msb, m_midiChannels[channel].bank_lsb);
 }
 
 void OPNMIDIplay::setDeviceId(uint8_t id)
